@@ -18,6 +18,9 @@ import random
 import traceback
 
 
+SUBMIT_YIELD = [False]      # set per run (spec['submit_yield']): ThreadPoolExecutor.submit is a scheduling point
+
+
 class Deadlock(Exception):
     pass
 
@@ -486,6 +489,9 @@ def make_executor_cls(sched, registry=None, name_hint=None):
             if self.idle == 0 and len(self.workers) < self.max_workers:
                 w = sched.spawn(self._worker, f'{self.name}-w{len(self.workers)}')
                 self.workers.append(w)
+            if SUBMIT_YIELD[0]:
+                # a real pool may run (and finish) the task before submit() returns to its caller
+                sched.yield_point('executor.submit')
             return f
 
         def _worker(self):
